@@ -43,6 +43,8 @@ PROP = dict(
         dict(name="edpred", pkg="c02", run="^TestC02_EdPred$", shards=EDWARDS, checks=(1500, 30000), timeout=(900, 3600)),
         dict(name="regress", pkg="c02", run="^TestC02_Regress", rapid=False),
         dict(name="regress_uninit", pkg="c02/uninit", run="^TestC02_RegressF52$", rapid=False),
+        # every Edwards point method, each in a fresh child process: cold call == warm call (lazy-init on every path)
+        dict(name="coldstart", pkg="c02/uninit", run="^TestC02_ColdStart$", rapid=False),
         dict(name="probe", pkg="c02", run="^TestC02_ProbeF41$", rapid=False),
         # white-box (optional: a build failure degrades to the black-box part): extended-Jacobian bucket arithmetic
         dict(name="wb.bn254", kind="overlay", pkg="ecc/bn254", run="^TestVerifC02_", checks=(600, 10000), optional=True),
